@@ -13,6 +13,7 @@ import Xrl.Spec.LBeta
 import Xrl.Spec.Invariants
 import Xrl.Spec.PhotoStrict
 import Xrl.Spec.GroupsText
+import Xrl.Spec.Text0129
 /-!
 # `spec.*` operations of the driver: the executable specifications in the `Float` reading
 
@@ -104,6 +105,15 @@ def dispatchSpec (T : Tables Float) (fn : String) (a : Array String) : Option St
   | "spec.CSb_Photo_Total_strict", 2 => some (fmtE (Spec.CSb_Photo_Total_strict T (pI a[0]!) (pF a[1]!)))
   | "spec.weightFailures", 0 => some ("shape " ++ toString ((Spec.weightFailures T).map (fun p => p.1 ++ ":" ++ toString p.2)))
   | "spec.shapeFailures2", 0 => some ("shape " ++ toString ((Spec.shapeFailures2 T).map (fun p => p.1 ++ ":" ++ toString p.2.1 ++ ":" ++ toString p.2.2)))
+  | "spec.ElectronConfig_BiggsPos", 2 => some (fmtE (Spec.ElectronConfig_BiggsPos T (pI a[0]!) (pI a[1]!)))
+  | "spec.biggsNegative", 0 => some ("list " ++ toString (Spec.biggsNegative T))
+  | "spec.zeroKnotBad", 0 => some ("shape " ++ toString ((Spec.zeroKnotBad T).map (fun p => p.1 ++ ":" ++ toString p.2)))
+  | "spec.zeroKnotTables", 0 => some ("shape " ++ toString ((Spec.zeroKnotTables T).map (fun p => p.1 ++ ":" ++ toString p.2)))
+  | "spec.lbDoubleCount", 0 => some ("list " ++ toString (Spec.lbDoubleCount T))
+  | "spec.lbMemberRates", 0 => some ("list " ++ toString (Spec.lbMemberRates T))
+  | "spec.shellFactorOf", 3 => some (fmtE (Spec.shellFactorOf T (pI a[0]!) (pI a[1]!) (pF a[2]!)))
+  | "spec.lineFactor", 3 => some (fmtE (Spec.lineFactor T (pI a[0]!) (pI a[1]!) (pF a[2]!)))
+  | "spec.CS_FluorLine_LBonce", 2 => some (fmtE (Spec.CS_FluorLine_LBonce T (pI a[0]!) (pF a[1]!)))
   | _, _ => none
 
 end Xrl
